@@ -56,7 +56,7 @@ func (r *yieldFromRewriter) rewriteYieldFrom(call *ast.CallExpr) *ast.RangeStmt 
 func (r *yieldFromRewriter) checkYieldCall(call *ast.CallExpr) types.Type {
 	r.assert(len(call.Args) == 1, call, "invalid args num")
 	iter := call.Args[0]
-	tyOfIt := r.pkg.TypeOf(iter) // co.Iter[V]
+	tyOfIt := unalias(r.pkg.TypeOf(iter)) // co.Iter[V]
 
 	msg := "invalid YieldFrom arg type"
 	r.assert(instanceof[*types.Named](tyOfIt), call, msg)
